@@ -134,13 +134,13 @@ Lemma bP_three b p q r : bP b [p; q; r] = bP1 (bP1 (bP1 b p) q) r. Proof. reflex
 (** the text [column] writes for a generated column (no DEFAULT, not AUTOINCREMENT) *)
 Lemma p_column_generated x bb c e ty :
   bb <> [] -> c_gen c = Some (e, ty) -> has_autoinc x (c_name c) = false -> c_default c = None ->
-  c_class c <> 0 -> c_name c <> [] -> type_ok (c_T c) -> may_wrap e <> [] -> N.eqb (last_byte (may_wrap e)) 32 = false ->
+  c_class c <> 0 -> name_ok (c_name c) -> type_ok (c_T c) -> may_wrap e <> [] -> N.eqb (last_byte (may_wrap e)) 32 = false ->
   exists tail, tail <> [] /\
     p_column x bb c = Some ((bb ++ bt_ident (c_name c) ++ [32] ++ c_T c ++ [32] ++ W_NOT_NULL_text (c_null c) ++ K_AS ++ [32] ++ may_wrap e) ++ tail).
 Proof.
-  intros Hbb Hg Ha Hd Hcls Hn (HT1 & HT2 & _) He1 He2. unfold p_column.
+  intros Hbb Hg Ha Hd Hcls [Hn Hnw] (HT1 & HT2 & _) He1 He2. unfold p_column.
   apply N.eqb_neq in Hcls. rewrite Hcls, Hd, Ha, Hg. rewrite bP_three, !bP_one.
-  unfold bIdent. destruct (c_name c) as [|n0 n] eqn:En; [contradiction|]. rewrite <- En.
+  unfold bIdent. rewrite (esc_ident_word _ Hnw). destruct (c_name c) as [|n0 n] eqn:En; [contradiction|]. rewrite <- En.
   set (b0 := bb ++ ch_bt :: c_name c ++ [ch_bt; 32]).
   assert (b0 <> []) as Hb0 by (unfold b0; destruct bb; discriminate).
   assert (last_byte b0 = 32) as Hl0.
@@ -248,7 +248,7 @@ Qed.
 (** where the generated column [c] of a table ends up in the printed CREATE TABLE *)
 Theorem gen_column_in_table x cols1 c cols2 e ty txt :
   t_cols (x_t x) = cols1 ++ c :: cols2 -> c_gen c = Some (e, ty) -> has_autoinc x (c_name c) = false ->
-  c_default c = None -> c_class c <> 0 -> c_name c <> [] -> type_ok (c_T c) ->
+  c_default c = None -> c_class c <> 0 -> name_ok (c_name c) -> type_ok (c_T c) ->
   may_wrap e <> [] -> is_go_space (last_byte (may_wrap e)) = false ->
   print_table x = Some txt ->
   exists pre c0 sp1 rest,
@@ -310,10 +310,10 @@ Theorem set_gen_expr_print_table x cols1 c cols2 e ty txt :
 Proof.
   intros Hcols Hg Ha Hd Hcls Hn HT Hw Hpt.
   destruct (wrapped_ends _ Hw) as [He1 He2].
-  destruct (gen_column_in_table x cols1 c cols2 e ty txt Hcols Hg Ha Hd Hcls (proj1 Hn) HT He1 He2 Hpt)
+  destruct (gen_column_in_table x cols1 c cols2 e ty txt Hcols Hg Ha Hd Hcls Hn HT He1 He2 Hpt)
     as (pre & c0 & sp1 & rest & -> & Hc0 & Hsp).
   exists (length pre), rest. intros Hns Hlast.
-  apply (set_gen_expr_printed (c_name c) pre c0 sp1 ([32] ++ c_T c ++ [32] ++ W_NOT_NULL_text (c_null c)) [32] (may_wrap e) rest);
+  apply (set_gen_expr_printed (c_name c) pre c0 sp1 32 (c_T c ++ [32] ++ W_NOT_NULL_text (c_null c)) [32] (may_wrap e) rest);
     try assumption; try reflexivity.
   destruct HT as (_ & _ & HTc). rewrite !forallb_app, HTc, not_null_text_nocomma. reflexivity.
 Qed.
@@ -321,12 +321,12 @@ Qed.
 (** ** the AUTOINCREMENT column *)
 Lemma p_column_autoinc x bb c :
   bb <> [] -> c_gen c = None -> has_autoinc x (c_name c) = true -> c_default c = None ->
-  c_class c <> 0 -> c_name c <> [] -> type_ok (c_T c) ->
+  c_class c <> 0 -> name_ok (c_name c) -> type_ok (c_T c) ->
   p_column x bb c = Some ((bb ++ bt_ident (c_name c) ++ [32] ++ c_T c ++ [32] ++ W_NOT_NULL_text (c_null c) ++ W_PK_AUTOINC) ++ [32]).
 Proof.
-  intros Hbb Hg Ha Hd Hcls Hn (HT1 & HT2 & _). unfold p_column.
+  intros Hbb Hg Ha Hd Hcls [Hn Hnw] (HT1 & HT2 & _). unfold p_column.
   apply N.eqb_neq in Hcls. rewrite Hcls, Hd, Ha, Hg. rewrite !bP_one.
-  unfold bIdent. destruct (c_name c) as [|n0 n] eqn:En; [contradiction|]. rewrite <- En.
+  unfold bIdent. rewrite (esc_ident_word _ Hnw). destruct (c_name c) as [|n0 n] eqn:En; [contradiction|]. rewrite <- En.
   set (b0 := bb ++ ch_bt :: c_name c ++ [ch_bt; 32]).
   assert (b0 <> []) as Hb0 by (unfold b0; destruct bb; discriminate).
   assert (last_byte b0 = 32) as Hl0.
@@ -371,7 +371,7 @@ Proof.
   set (bb := if is_nil cols1 then b1 else bComma b1) in *.
   assert (good 67 bb) as Gbb by (unfold bb; destruct (is_nil cols1); [exact G1|apply good_bComma; exact G1]).
   assert (bb <> []) as Hbbn by (destruct Gbb as (r & -> & _); discriminate).
-  rewrite (p_column_autoinc x bb c Hbbn Hg Ha Hd Hcls (proj1 Hn) HTo) in Hpt.
+  rewrite (p_column_autoinc x bb c Hbbn Hg Ha Hd Hcls Hn HTo) in Hpt.
   set (P := bb ++ bt_ident (c_name c) ++ [32] ++ c_T c ++ [32] ++ W_NOT_NULL_text (c_null c) ++ W_PK_AUTOINC) in *.
   assert (kept P (P ++ [32])) as K0 by (exists [32]; split; [reflexivity|discriminate]).
   destruct (p_columns x (P ++ [32]) false cols2) as [bc|] eqn:E2; [|discriminate].
@@ -414,15 +414,20 @@ Proof.
   - unfold p_parts, bWrap. apply bClose_last.
 Qed.
 
-(** for a trimmed, non-empty predicate [p]: if the letters WHERE do not occur in the statement before the
-    keyword (index, table and column names, expressions), the predicate the inspector reads back is [p] *)
+(** for a trimmed, non-empty predicate [p]: if no match of reIdxWhere starts before the closing parenthesis
+    of the index parts (")" + spaces + WHERE + white space inside a name or an expression of [index_head]),
+    the predicate the inspector reads back is [p].  (Before the fix of addIndexes the premise was: the
+    upper-case letters WHERE do not occur in the head at all.) *)
+Lemma trim_space_sp_cons s : trim_space (32 :: s) = trim_space s.
+Proof. reflexivity. Qed.
 Theorem index_predicate_print_index t i0 i p txt :
   normalize_idx_name i0 t = Some i -> i_pred i = Some p -> p <> [] -> trim_space p = p ->
   is_go_space (last_byte p) = false ->
-  occurs_cs K_WHERE (index_head t i) = false ->
-  print_index t i0 = Some txt -> index_predicate txt = Some p.
+  print_index t i0 = Some txt ->
+  no_start_before _ where_at txt (pred (length (index_head t i))) = true ->
+  index_predicate txt = Some p.
 Proof.
-  intros Hn Hp Hne Htr Hlp Hfree Hpi. unfold print_index in Hpi. rewrite Hn, Hp in Hpi.
+  intros Hn Hp Hne Htr Hlp Hpi Hns. unfold print_index in Hpi. rewrite Hn, Hp in Hpi.
   fold (index_head t i) in Hpi. destruct (index_head_good t i) as [(r & Hr & Hrn) Hl].
   set (b4 := index_head t i) in *.
   assert (bP (bP b4 [K_WHERE]) [p] = (b4 ++ [32] ++ K_WHERE ++ [32] ++ p) ++ [32]) as Hb.
@@ -438,7 +443,16 @@ Proof.
       by (cbn [app]; repeat rewrite <- app_assoc; reflexivity).
     rewrite last_byte_app by exact Hne. exact Hlp. }
   rewrite Ht in Hpi. injection Hpi as <-.
-  change (b4 ++ 32 :: 87 :: 72 :: 69 :: 82 :: 69 :: 32 :: p) with (b4 ++ 32 :: K_WHERE ++ ([32] ++ p)).
-  rewrite (index_predicate_printed b4 32 ([32] ++ p) Hfree) by (intros [H|[H|[H|[H|[H|[]]]]]]; discriminate).
-  f_equal. unfold trim_space. cbn [app skip_while]. change (is_go_space 32) with true. cbn iota. exact Htr.
+  assert (b4 <> []) as Hb4 by (rewrite Hr; discriminate).
+  destruct (exists_last Hb4) as (b5 & z & Eb).
+  assert (z = ch_rp) as -> by (rewrite Eb in Hl; rewrite last_byte_snoc in Hl; exact Hl).
+  destruct p as [|c p']; [contradiction|].
+  assert (b4 ++ [32] ++ K_WHERE ++ [32] ++ c :: p' = b5 ++ ch_rp :: [32] ++ K_WHERE ++ 32 :: c :: p') as Etxt
+    by (rewrite Eb; rewrite <- app_assoc; reflexivity).
+  match goal with |- index_predicate ?x = _ => change x with (b4 ++ [32] ++ K_WHERE ++ [32] ++ c :: p') end.
+  match type of Hns with no_start_before _ _ ?x _ = _ => change x with (b4 ++ [32] ++ K_WHERE ++ [32] ++ c :: p') in Hns end.
+  rewrite Etxt in Hns. rewrite Etxt.
+  rewrite (index_predicate_printed b5 [32] 32 c p'); [|reflexivity|reflexivity|].
+  - f_equal. rewrite trim_space_sp_cons. exact Htr.
+  - replace (length b5) with (pred (length b4)); [exact Hns|]. rewrite Eb, app_length. cbn [length]. rewrite Nat.add_1_r. reflexivity.
 Qed.
